@@ -77,3 +77,32 @@ def run_fwd(p: Project, clause: str, modules, floor: int, description: str | Non
             rr.inst(ident, True)
             rr.add(finding("FOCUS-FWD", fi, c, f"`{norm(c, 70)}` leaves out the focus flag although {fi.name}() received one and {c.func.attr}() takes it ({how}): the callee works with focus=False - the geometry / rendering of the unfocused widget - while the caller was asked about the focused one", construct=f"focus not forwarded: {norm(c, 70)}"))
     return rr
+
+
+def run_self_fwd(p: Project, clause: str, modules, floor: int) -> RuleResult:
+    """A container's `focus` parameter says whether the *container* is in focus.  Helper methods of the same object that
+    take a `focus` parameter mean the same flag; what a single child sees is derived from it per child
+    (`focus and i == self.focus_position`).  When a method calls such a helper on `self`, the argument is therefore its
+    own `focus` parameter (or a constant) - never a per-item flag computed in a loop: Pile.get_rows_sizes() handing
+    `item_focus` to get_item_rows() makes the weighted rows be computed as if the focused pack item were unfocused, the
+    rows no longer add up to maxrow."""
+    rr = RuleResult("FLAG-FWD", clause, "a method that calls a helper of its own object taking `focus` passes its own focus flag (or a constant), not a per-item flag", floor=floor)
+    for fi in _layers(p, modules):
+        if "focus" not in fi.params or not fi.self_name:
+            continue
+        for c in fi.own_nodes():
+            if not (isinstance(c, ast.Call) and isinstance(c.func, ast.Attribute) and isinstance(c.func.value, ast.Name) and c.func.value.id == fi.self_name):
+                continue
+            t = [x for x in (p.resolve_call(c, fi) or []) if hasattr(x, "params") and "focus" in x.params]
+            if not t:
+                continue
+            g = t[0]
+            i = g.params.index("focus") - 1
+            a = c.args[i] if len(c.args) > i else next((k.value for k in c.keywords if k.arg == "focus"), None)
+            if a is None:
+                continue
+            ok = (isinstance(a, ast.Name) and a.id == "focus") or isinstance(a, ast.Constant)
+            rr.inst(f"{short(fi)}:{norm(c, 50)}", True, {"caller": short(fi), "call": norm(c, 60), "focus_argument": ast.unparse(a)} if len(rr.samples) < 6 else None)
+            if not ok:
+                rr.add(finding("FLAG-FWD", fi, c, f"`{norm(c, 70)}` hands `{ast.unparse(a)}` to {short(g)}() as the object's focus flag; that helper derives each child's flag from it itself - given a per-item flag it treats the whole container as (un)focused by the state of one item, and what it computes (rows of the weighted items) disagrees with what the caller computes with the real flag", construct=f"self-call passes {ast.unparse(a)} as focus"))
+    return rr
